@@ -59,29 +59,19 @@ func tableConcat(L *LState) int {
 	}
 	i := L.OptInt(3, 1)
 	j := L.OptInt(4, tbl.Len())
-	if L.GetTop() == 3 {
-		if i > tbl.Len() || i < 1 {
-			L.Push(emptyLString)
-			return 1
-		}
-	}
-	if i > j {
-		L.Push(emptyLString)
-		return 1
-	}
-	i = intMax(intMin(i, tbl.Len()), 1)
-	j = intMin(intMin(j, tbl.Len()), tbl.Len())
+	// as in tconcat of ltablib.c the range is taken as it is: a position in it that holds no string or
+	// number, also one outside 1..#t, raises the error below
 	if i > j {
 		L.Push(emptyLString)
 		return 1
 	}
 	// collected in a slice, not on the value stack: the length of the list must not be limited by
 	// the registry size
-	parts := make([]string, 0, j-i+1)
+	parts := make([]string, 0, intMax(intMin(j-i+1, tbl.Len()), 0))
 	for ; i <= j; i++ {
 		v := tbl.RawGetInt(i)
 		if !LVCanConvToString(v) {
-			L.RaiseError("invalid value (%s) at index %d in table for concat", v.Type().String(), i)
+			L.RaiseError("invalid value (%s) at index %d in table for 'concat'", v.Type().String(), i)
 		}
 		parts = append(parts, LVAsString(v))
 	}
